@@ -165,6 +165,15 @@ def seeded(a, rest, seed):
                 if only and name not in only and kind not in only and name.split("-")[0] not in only:
                     continue
                 pid = name.split("-")[0]
+                try:
+                    with open(os.path.join(d, "meta.json")) as fh:
+                        meta = json.load(fh)
+                except Exception:
+                    meta = {}
+                if meta.get("expect") == "not_decided":
+                    print("%-7s %-7s skipped   (recorded as not decided: %s)" % (kind, name, meta.get("why_not_decided", "")[:90]))
+                    continue
+                pid = meta.get("detecting_check", pid)
                 root = os.path.join(scratch_root, kind + "_" + name)
                 os.makedirs(root)
                 entry = {"id": name, "kind": kind, "property": pid}
